@@ -102,7 +102,11 @@ Definition g_bytes (val : option (list N)) : M value :=
       dom g <- random_str n STR_ALPHABET; ret (VBytes g)
   end.
 
-(* the padding of visit_list (elements given, len declared and not reached) *)
+(* the length visit_list pads up to: the declared len, else the declared minimal length *)
+Definition pad_target (len mnl : option intv) : option intv :=
+  match len with Some k => Some k | None => mnl end.
+
+(* the padding of visit_list (elements given, target length declared and not reached) *)
 Definition pad_elements (es : list (option unit)) (len : option intv) (vals : list value)
   : result (list value) :=
   match len with
@@ -153,7 +157,7 @@ Fixpoint gen (w : world) (s : schema) {struct s} : M value :=
                                                         | Some e => Some (gen w e)
                                                         | None => None end) es'));
           dom r <- mlift (pad_elements (map (fun o => match o with Some _ => Some tt | None => None end) es')
-                                       len vals);
+                                       (pad_target len mnl) vals);
           ret (VList r)
       | None =>
           dom lf <- g_list_length len mnl mxl;
